@@ -1351,44 +1351,4 @@ Proof.
   intros v H. unfold unwrap. apply (proj1 cunwrap_kind). constructor. exact H.
 Qed.
 
-(* ------------------------------------------------------------------ __setitem__ with a slice *)
-
-Notation setitem_slice := (setitem_slice B zero).
-Notation fa_setitem := (fa_setitem B zero).
-
-(* the sugar is the flat slice assignment for every pair of optional bounds (an explicit
-   stop of 0 included: `key.stop if key.stop is not None else self.length`) *)
-Lemma setitem_correct : forall (v : bvec) (start stop : option nat) (val : chunk),
-  wf v -> wfc val ->
-  match fa_setitem (flat v) start stop (cflat val) with
-  | None => setitem_slice v start stop val = None
-  | Some l' => exists v', setitem_slice v start stop val = Some v' /\ wf v' /\ flat v' = l'
-  end.
-Proof.
-  intros v start stop val Hv Hval.
-  unfold setitem_slice, ByteVecModel.setitem_slice, fa_setitem, ByteVecSpec.fa_setitem.
-  assert (H1 : py_or start 0 = bound start 0) by (destruct start as [[|n]|]; reflexivity).
-  assert (H2 : py_if_not_none stop (blen v) = bound stop (length (flat v))).
-  { rewrite (flat_length v Hv). destruct stop as [n|]; reflexivity. }
-  rewrite H1, H2. apply set_slice_correct; assumption.
-Qed.
-
 End Proofs.
-
-(* the inputs on which the sugar used to deviate (explicit stop 0 taken for "to the end"):
-   v[2:0] = [8; 9] on [1; 2; 3; 4] is rejected like the flat write (stop < start),
-   v[0:0] = [] is the no-op, and an omitted stop still means "to the end" *)
-Lemma setitem_stop0_example :
-  let v : bvec nat := run_ops 0 [OAppend (wrap false [1; 2; 3; 4])] in
-  wf v /\
-  fa_setitem nat 0 (flat v) (Some 2) (Some 0) [8; 9] = None /\
-  setitem_slice nat 0 v (Some 2) (Some 0) (wrap false [8; 9]) = None /\
-  fa_setitem nat 0 (flat v) (Some 0) (Some 0) [] = Some [1; 2; 3; 4] /\
-  setitem_slice nat 0 v (Some 0) (Some 0) (wrap false []) = Some v /\
-  exists v', setitem_slice nat 0 v (Some 1) None (wrap false [7; 8; 9]) = Some v' /\
-             flat v' = [1; 7; 8; 9].
-Proof.
-  cbv zeta. split; [|repeat split].
-  - apply history_correct. repeat constructor.
-  - eexists. split; vm_compute; reflexivity.
-Qed.
